@@ -12,8 +12,8 @@ using namespace verif;
 
 int main(int argc, char **argv) {
   // Leaked on purpose: std::cout is flushed by static destructors after main.
-  std::ostringstream *sink = new std::ostringstream();
-  std::cout.rdbuf(sink->rdbuf());
+  NullBuf *sink = new NullBuf();
+  std::cout.rdbuf(sink);
   if (argc >= 5 && std::string(argv[1]) == "--exhaustive") {
     int k = atoi(argv[2]), n = atoi(argv[3]);
     std::string prefix = argv[4];
